@@ -119,11 +119,11 @@ func plan(seed int64, n int) []scen {
 func argPrefix(sc scen) string {
 	switch sc.op {
 	case "e2e":
-		return sc.mode + " ? ; ."
+		return sc.mode + " " + commitModeOf(sc) + " ; ."
 	case "det":
-		return sc.mode + " ? 0 0 0 0"
+		return detArgs(sc)
 	}
-	return "? 0"
+	return cacArgs(sc)
 }
 
 func runScenario(sc scen) result {
@@ -160,6 +160,7 @@ func workerMain(scens []scen, w, of, from int) {
 			continue
 		}
 		fmt.Fprintf(os.Stderr, "BEGIN %d\n", sc.id)
+		selfTest(sc.id)
 		r := runScenario(sc)
 		fmt.Fprintln(out, fmtLine(sc, r))
 		out.Flush()
@@ -167,6 +168,18 @@ func workerMain(scens []scen, w, of, from int) {
 			// abandoned goroutines are still around: go on in a fresh process
 			os.Exit(exitRestart)
 		}
+	}
+}
+
+// selfTest exercises the parent's handling of dying and stalling workers:
+// C09R_TEST_CRASH=<id> panics in a goroutine, C09R_TEST_STALL=<id> never finishes.
+func selfTest(id int) {
+	if os.Getenv("C09R_TEST_CRASH") == fmt.Sprint(id) {
+		go func() { panic("selftest: crash in a goroutine") }()
+		time.Sleep(time.Second)
+	}
+	if os.Getenv("C09R_TEST_STALL") == fmt.Sprint(id) {
+		time.Sleep(time.Hour)
 	}
 }
 
